@@ -11,15 +11,15 @@ import (
 // NoisePolicy is the generation-mode site policy: CheckTx interleaving and crashes on
 // non-reference replicas.
 type NoisePolicy struct {
-	Rng        *rand.Rand
-	Sess       *gen.Session
-	CheckRate  float64 // probability of injecting CheckTx calls at a site (non-quiet replicas)
-	CrashRate  float64 // probability of crashing at a site
+	Rng             *rand.Rand
+	Sess            *gen.Session
+	CheckRate       float64 // probability of injecting CheckTx calls at a site (non-quiet replicas)
+	CrashRate       float64 // probability of crashing at a site
 	ReplayCrashRate float64 // probability of crashing at a site during handshake replay
-	MaxCrashes int
-	crashes    int
-	Extra      func() [][]byte // extra CheckTx material (state-writing kinds)
-	CrashOK    func(r *core.Replica, s core.Site) bool
+	MaxCrashes      int
+	crashes         int
+	Extra           func() [][]byte // extra CheckTx material (state-writing kinds)
+	CrashOK         func(r *core.Replica, s core.Site) bool
 }
 
 func (p *NoisePolicy) Decide(e *core.Engine, r *core.Replica, s core.Site) (checks [][]byte, crash bool) {
